@@ -135,24 +135,20 @@ Section P.
   Notation run := (run parse_d parse_dt).
   Notation run_seq := (run_seq parse_d parse_dt).
   Notation after := (after parse_d parse_dt).
-  Notation dt_fun := (dt_fun parse_dt).
 
   Definition date_entry_ok (k : key) (v : Z) : Prop := parse_d k = Some v.
-  Definition dt_entry_ok (k : key) (v : Z) : Prop := is_clock_key k = false -> parse_dt k = Some v.
+  Definition dt_entry_ok (k : key) (v : Z) : Prop := parse_dt k = Some v.
 
-  (* every cached parse equals what the parser returns for that key; the clock keys of the
-     datetime cache are the exception *)
+  (* every cached parse equals what the parser returns for that key *)
   Definition coherent (p : proc) : Prop :=
     items_sat date_entry_ok (p_dates p) /\ items_sat dt_entry_ok (p_dts p).
 
-  Lemma dt_fun_nonclock e k : is_clock_key k = false -> dt_fun e k = parse_dt k.
-  Proof.
-    unfold is_clock_key, Isolation.dt_fun. intros H. apply Bool.orb_false_iff in H.
-    destruct H as [-> ->]. reflexivity.
-  Qed.
-
   Lemma coherent_proc0 : coherent proc0.
   Proof. split; intros k v H; destruct H. Qed.
+
+  (* ODatetime: the three branches of parse_datetimespec *)
+  Ltac dt_branches k :=
+    destruct (String.eqb k "now"); [|destruct (String.eqb k "today")].
 
   Lemma step_coherent e ver p s o : coherent p -> coherent (fst (step e ver p s o)).
   Proof.
@@ -163,10 +159,10 @@ Section P.
     - destruct (lru_call date_cache_size parse_d (p_dates p) k) as [c r] eqn:E. cbn [fst].
       split; cbn [set_dates p_dates p_dts]; auto.
       change c with (fst (c, r)). rewrite <- E. apply lru_call_items; auto.
-    - destruct (lru_call date_cache_size (dt_fun e) (p_dts p) k) as [c r] eqn:E. cbn [fst].
+    - dt_branches k; try (cbn [fst]; split; assumption).
+      destruct (lru_call date_cache_size parse_dt (p_dts p) k) as [c r] eqn:E. cbn [fst].
       split; cbn [set_dts p_dates p_dts]; auto.
       change c with (fst (c, r)). rewrite <- E. apply lru_call_items; auto.
-      intros v Hv Hk. rewrite <- Hv. symmetry. apply dt_fun_nonclock. exact Hk.
     - destruct (p_rowhist p); [|cbn; split; assumption].
       destruct (existsb _ _); cbn [fst]; split; assumption.
     - cbn [fst]. split; assumption.
@@ -181,19 +177,10 @@ Section P.
     specialize (IH p' s' H1). destruct (exec_ops e ver p' s' ops) as [p'' out]. exact IH.
   Qed.
 
-  Lemma set_app_ver_coherent p v : coherent p -> coherent (set_app_ver p v).
-  Proof. intros [A B]. split; assumption. Qed.
-
-  Lemma write_app_ver_coherent p e r : coherent p -> coherent (write_app_ver p e r).
-  Proof.
-    intros H. unfold write_app_ver. destruct (e_shared e); auto.
-    destruct (r_version r); auto using set_app_ver_coherent.
-  Qed.
-
   Lemma run_coherent p e r : coherent p -> coherent (fst (run p e r)).
   Proof.
-    intros H. unfold Isolation.run. destruct (r_stage r); cbn [fst]; auto using write_app_ver_coherent.
-    apply exec_coherent. pose proof (write_app_ver_coherent p e r H) as [A B]. split; assumption.
+    intros H. unfold Isolation.run. destruct (r_stage r); cbn [fst]; auto.
+    apply exec_coherent. destruct H as [A B]. split; assumption.
   Qed.
 
   Lemma run_seq_coherent l : forall p, coherent p -> coherent (fst (run_seq p l)).
@@ -209,98 +196,115 @@ Section P.
   (* ---------------------------------------------------------------- cache_coherent *)
 
   (* In every process state reachable by running recipes, a call through either cache returns
-     what a fresh call of the parser returns (exception included) — for the datetime cache:
-     for keys that do not read the clock. *)
+     what a fresh call of the parser returns (exception included), for every key. *)
   Theorem cache_coherent l k :
     let p := after l in
     snd (lru_call date_cache_size parse_d (p_dates p) k) = parse_d k /\
-    (is_clock_key k = false ->
-     forall e, snd (lru_call date_cache_size (dt_fun e) (p_dts p) k) = parse_dt k).
+    snd (lru_call date_cache_size parse_dt (p_dts p) k) = parse_dt k.
   Proof.
     cbn zeta. destruct (after_coherent l) as [Hd Ht]. split.
     - apply lru_call_value. intros v Hv. exact (Hd k v Hv).
-    - intros Hk e. rewrite lru_call_value; [apply dt_fun_nonclock; exact Hk|].
-      intros v Hv. rewrite dt_fun_nonclock by exact Hk. exact (Ht k v Hv Hk).
+    - apply lru_call_value. intros v Hv. exact (Ht k v Hv).
+  Qed.
+
+  (* the clock keys never enter the datetime cache *)
+  Lemma step_clock_untouched e ver p s k :
+    is_clock_key k = true -> fst (step e ver p s (ODatetime k)) = p.
+  Proof.
+    unfold is_clock_key. cbn [Isolation.step]. intros H.
+    destruct (String.eqb k "now"); [reflexivity|]. cbn [orb] in H. rewrite H. reflexivity.
   Qed.
 
   (* ---------------------------------------------------------------- noninterference *)
 
+  (* what two process states must share for a list of operations to behave alike: nothing,
+     unless a unique id is drawn - then the context counter *)
+  Definition uid_ok (ops : list op) (p1 p2 : proc) : Prop :=
+    existsb is_uid_op ops = false \/ p_uid p1 = p_uid p2.
+
   Lemma step_nonint e ver p1 p2 s o :
-    coherent p1 -> coherent p2 -> p_rowhist p1 = p_rowhist p2 -> op_reads_proc o = false ->
+    coherent p1 -> coherent p2 -> p_rowhist p1 = p_rowhist p2 ->
+    (is_uid_op o = false \/ p_uid p1 = p_uid p2) ->
     snd (step e ver p1 s o) = snd (step e ver p2 s o) /\
-    p_rowhist (fst (step e ver p1 s o)) = p_rowhist (fst (step e ver p2 s o)).
+    p_rowhist (fst (step e ver p1 s o)) = p_rowhist (fst (step e ver p2 s o)) /\
+    (p_uid p1 = p_uid p2 -> p_uid (fst (step e ver p1 s o)) = p_uid (fst (step e ver p2 s o))) /\
+    (is_uid_op o = false -> p_uid (fst (step e ver p1 s o)) = p_uid p1 /\
+                            p_uid (fst (step e ver p2 s o)) = p_uid p2).
   Proof.
-    intros [Hd1 Ht1] [Hd2 Ht2] Hr Ho. destruct o; cbn [Isolation.step op_reads_proc] in *.
-    - rewrite <- Hr. destruct (p_rowhist p1) eqn:E; cbn [fst snd]; split; auto.
-      rewrite E. exact Hr.
-    - cbn [fst snd]. auto.
-    - discriminate.
+    intros [Hd1 Ht1] [Hd2 Ht2] Hr Ho. destruct o; cbn [Isolation.step is_uid_op] in *.
+    - rewrite <- Hr. destruct (p_rowhist p1) eqn:E; cbn [fst snd set_rowhist p_rowhist p_uid]; splits; auto;
+        try (rewrite E; exact Hr).
+    - cbn [fst snd]. splits; auto.
+    - destruct Ho as [Ho|Ho]; [discriminate|].
+      destruct (gen_find g (rs_gens s)) as [[c i]|]; cbn [fst snd touch_masks draw_context p_rowhist p_uid].
+      + splits; auto; try (intros; discriminate).
+      + rewrite Ho. splits; auto; try (intros; discriminate).
     - pose proof (lru_call_value date_cache_size parse_d (p_dates p1) k (fun v H => Hd1 k v H)) as V1.
       pose proof (lru_call_value date_cache_size parse_d (p_dates p2) k (fun v H => Hd2 k v H)) as V2.
       destruct (lru_call date_cache_size parse_d (p_dates p1) k) as [c1 r1].
       destruct (lru_call date_cache_size parse_d (p_dates p2) k) as [c2 r2].
-      cbn [snd fst] in *. subst r1 r2. split; auto.
-    - assert (V : forall p, items_sat dt_entry_ok (p_dts p) ->
-                            snd (lru_call date_cache_size (dt_fun e) (p_dts p) k) = parse_dt k).
-      { intros p Hp. rewrite lru_call_value; [apply dt_fun_nonclock; exact Ho|].
-        intros v Hv. rewrite dt_fun_nonclock by exact Ho. exact (Hp k v Hv Ho). }
-      pose proof (V p1 Ht1) as V1. pose proof (V p2 Ht2) as V2.
-      destruct (lru_call date_cache_size (dt_fun e) (p_dts p1) k) as [c1 r1].
-      destruct (lru_call date_cache_size (dt_fun e) (p_dts p2) k) as [c2 r2].
-      cbn [snd fst] in *. subst r1 r2. split; auto.
+      cbn [snd fst set_dates p_rowhist p_uid] in *. subst r1 r2. splits; auto.
+    - destruct (String.eqb k "now"); [cbn [fst snd]; splits; auto|].
+      destruct (String.eqb k "today"); [cbn [fst snd]; splits; auto|].
+      pose proof (lru_call_value date_cache_size parse_dt (p_dts p1) k (fun v H => Ht1 k v H)) as V1.
+      pose proof (lru_call_value date_cache_size parse_dt (p_dts p2) k (fun v H => Ht2 k v H)) as V2.
+      destruct (lru_call date_cache_size parse_dt (p_dts p1) k) as [c1 r1].
+      destruct (lru_call date_cache_size parse_dt (p_dts p2) k) as [c2 r2].
+      cbn [snd fst set_dts p_rowhist p_uid] in *. subst r1 r2. splits; auto.
     - rewrite <- Hr. destruct (p_rowhist p1) eqn:E.
-      + destruct (existsb _ _); cbn [fst snd]; rewrite ?E; auto.
-      + cbn [fst snd]. rewrite E. auto.
-    - cbn [fst snd]. auto.
-    - cbn [fst snd]. auto.
+      + destruct (existsb _ _); cbn [fst snd]; rewrite ?E; splits; auto.
+      + cbn [fst snd]. rewrite E. splits; auto.
+    - cbn [fst snd]. splits; auto.
+    - cbn [fst snd]. splits; auto.
   Qed.
 
   Lemma exec_nonint e ver ops : forall p1 p2 s,
-    coherent p1 -> coherent p2 -> p_rowhist p1 = p_rowhist p2 ->
-    existsb op_reads_proc ops = false ->
+    coherent p1 -> coherent p2 -> p_rowhist p1 = p_rowhist p2 -> uid_ok ops p1 p2 ->
     snd (exec_ops e ver p1 s ops) = snd (exec_ops e ver p2 s ops).
   Proof.
-    induction ops as [|o ops IH]; intros p1 p2 s H1 H2 Hr Ho; cbn [Isolation.exec_ops]; auto.
-    cbn [existsb] in Ho. apply Bool.orb_false_iff in Ho. destruct Ho as [Ho Hops].
-    destruct (step_nonint e ver p1 p2 s o H1 H2 Hr Ho) as [Hs Hr'].
+    induction ops as [|o ops IH]; intros p1 p2 s H1 H2 Hr Hu; cbn [Isolation.exec_ops]; auto.
+    assert (Ho : is_uid_op o = false \/ p_uid p1 = p_uid p2).
+    { destruct Hu as [Hu|Hu]; [left|right; exact Hu]. cbn [existsb] in Hu.
+      apply Bool.orb_false_iff in Hu. tauto. }
+    destruct (step_nonint e ver p1 p2 s o H1 H2 Hr Ho) as (Hs & Hr' & Hsame & Hkeep).
     pose proof (step_coherent e ver p1 s o H1) as C1.
     pose proof (step_coherent e ver p2 s o H2) as C2.
+    assert (Hu' : uid_ok ops (fst (step e ver p1 s o)) (fst (step e ver p2 s o))).
+    { destruct Hu as [Hu|Hu]; [left|right; auto].
+      cbn [existsb] in Hu. apply Bool.orb_false_iff in Hu. tauto. }
     destruct (step e ver p1 s o) as [q1 x1]. destruct (step e ver p2 s o) as [q2 x2].
     cbn [fst snd] in *. subst x2. destruct x1 as [[s' b]|er]; cbn [snd]; auto.
-    specialize (IH q1 q2 s' C1 C2 Hr' Hops).
+    specialize (IH q1 q2 s' C1 C2 Hr' Hu').
     destruct (exec_ops e ver q1 s' ops) as [r1 o1]. destruct (exec_ops e ver q2 s' ops) as [r2 o2].
     cbn [snd] in *. subst o2. reflexivity.
   Qed.
 
-  (* The outcome of a recipe without process-reading functions is the same in any two coherent
-     process states, provided the run does not look at the application's shared options dict
-     (or that dict holds the same version entry in both). *)
+  (* Noninterference.  For the same inputs (recipe, clock, application options) the outcome of
+     a run is the same in any two coherent process states - for EVERY recipe if the two states
+     agree on the unique-id context counter, and without any condition on the states if the
+     recipe draws no unique id.  (Clock keys make the outcome depend on the clock input [e],
+     not on the process.) *)
   Theorem noninterference p1 p2 e r :
-    coherent p1 -> coherent p2 -> no_proc_funcs r = true ->
-    (version_fixed e r = true \/ p_app_ver p1 = p_app_ver p2) ->
+    coherent p1 -> coherent p2 -> (no_uid r = true \/ p_uid p1 = p_uid p2) ->
     snd (run p1 e r) = snd (run p2 e r).
   Proof.
-    intros H1 H2 Hn Hv. unfold Isolation.run. destruct (r_stage r); cbn [snd]; auto.
-    assert (Ev : effective_version p1 e r = effective_version p2 e r).
-    { unfold effective_version, version_fixed in *. destruct (r_version r); auto.
-      destruct (e_shared e); auto. destruct Hv as [Hv|Hv]; [discriminate|]. rewrite Hv. reflexivity. }
-    rewrite Ev. apply exec_nonint.
-    - pose proof (write_app_ver_coherent p1 e r H1) as [A B]. split; assumption.
-    - pose proof (write_app_ver_coherent p2 e r H2) as [A B]. split; assumption.
+    intros H1 H2 Hn. unfold Isolation.run. destruct (r_stage r); cbn [snd]; auto.
+    apply exec_nonint.
+    - destruct H1 as [A B]. split; assumption.
+    - destruct H2 as [A B]. split; assumption.
     - reflexivity.
-    - unfold no_proc_funcs in Hn. apply Bool.negb_true_iff in Hn. exact Hn.
+    - destruct Hn as [Hn|Hn]; [left|right; exact Hn].
+      unfold no_uid in Hn. apply Bool.negb_true_iff in Hn. exact Hn.
   Qed.
 
   (* ... in particular after any two histories of runs, and compared with a fresh process *)
   Theorem sequence_independent h1 h2 e r :
-    no_proc_funcs r = true -> version_fixed e r = true ->
-    snd (run (after h1) e r) = snd (run (after h2) e r).
-  Proof. intros Hn Hv. apply noninterference; auto using after_coherent. Qed.
+    no_uid r = true -> snd (run (after h1) e r) = snd (run (after h2) e r).
+  Proof. intros Hn. apply noninterference; auto using after_coherent. Qed.
 
   Corollary same_as_fresh_process h e r :
-    no_proc_funcs r = true -> version_fixed e r = true ->
-    snd (run (after h) e r) = snd (run proc0 e r).
-  Proof. intros Hn Hv. exact (sequence_independent h [] e r Hn Hv). Qed.
+    no_uid r = true -> snd (run (after h) e r) = snd (run proc0 e r).
+  Proof. intros Hn. exact (sequence_independent h [] e r Hn). Qed.
 
   (* ---------------------------------------------------------------- what a run leaves behind *)
 
@@ -311,20 +315,10 @@ Section P.
     - cbn; lia.
     - destruct (gen_find g (rs_gens s)) as [[c i]|]; cbn; lia.
     - destruct (lru_call _ _ _ _); cbn; lia.
-    - destruct (lru_call _ _ _ _); cbn; lia.
+    - dt_branches k; try (cbn; lia). destruct (lru_call _ _ _ _); cbn; lia.
     - destruct (p_rowhist p); [destruct (existsb _ _)|]; cbn; lia.
     - cbn; lia.
     - cbn; lia.
-  Qed.
-
-  Lemma step_app_ver e ver p s o : p_app_ver (fst (step e ver p s o)) = p_app_ver p.
-  Proof.
-    destruct o; cbn [Isolation.step]; auto.
-    - destruct (p_rowhist p); reflexivity.
-    - destruct (gen_find g (rs_gens s)) as [[c i]|]; reflexivity.
-    - destruct (lru_call _ _ _ _); reflexivity.
-    - destruct (lru_call _ _ _ _); reflexivity.
-    - destruct (p_rowhist p); [destruct (existsb _ _)|]; reflexivity.
   Qed.
 
   Lemma exec_uid_mono e ver ops : forall p s, p_uid p <= p_uid (fst (exec_ops e ver p s ops)).
@@ -335,49 +329,25 @@ Section P.
     specialize (IH p' s'). destruct (exec_ops e ver p' s' ops) as [p'' out]. cbn [fst] in *. lia.
   Qed.
 
-  Lemma exec_app_ver e ver ops : forall p s, p_app_ver (fst (exec_ops e ver p s ops)) = p_app_ver p.
-  Proof.
-    induction ops as [|o ops IH]; intros p s; cbn [Isolation.exec_ops]; auto.
-    pose proof (step_app_ver e ver p s o) as H.
-    destruct (step e ver p s o) as [p' [[s' b]|er]]; cbn [fst] in *; auto.
-    specialize (IH p' s'). destruct (exec_ops e ver p' s' ops) as [p'' out]. cbn [fst] in *. congruence.
-  Qed.
-
-  (* Any run — failing or not — leaves the process coherent, never lowers the unique-id
-     counter, and touches the application's options dict only in the one documented way. *)
+  (* Any run - failing or not - leaves the process coherent and never lowers the unique-id
+     counter.  (The application's options dict is not part of the state any more.) *)
   Theorem run_effects p e r :
     let p' := fst (run p e r) in
-    (coherent p -> coherent p') /\
-    p_uid p <= p_uid p' /\
-    p_app_ver p' = match r_stage r with
-                   | SParseFail => p_app_ver p
-                   | _ => p_app_ver (write_app_ver p e r)
-                   end.
+    (coherent p -> coherent p') /\ p_uid p <= p_uid p'.
   Proof.
     cbn zeta. splits.
     - apply run_coherent.
     - unfold Isolation.run. destruct (r_stage r); cbn [fst]; try lia.
-      + unfold write_app_ver. destruct (e_shared e); [destruct (r_version r)|]; cbn; lia.
-      + eapply Z.le_trans; [|apply exec_uid_mono]. cbn [set_rowhist p_uid].
-        unfold write_app_ver. destruct (e_shared e); [destruct (r_version r)|]; cbn; lia.
-    - unfold Isolation.run. destruct (r_stage r); cbn [fst]; auto.
-      rewrite exec_app_ver. reflexivity.
+      eapply Z.le_trans; [|apply exec_uid_mono]. cbn [set_rowhist p_uid]. lia.
   Qed.
 
   (* A failed run does not poison the next one: after a failing run r1 the outcome of a
-     recipe r2 without process-reading functions is what it would have been without r1.
+     recipe r2 that draws no unique id is what it would have been without r1.
      (The failure hypothesis is not used: the statement holds for every run r1.) *)
   Theorem failed_run_harmless p e1 r1 e2 r2 :
-    coherent p -> o_err (snd (run p e1 r1)) <> None ->
-    no_proc_funcs r2 = true ->
-    (version_fixed e2 r2 = true \/ e_shared e1 = false) ->
+    coherent p -> o_err (snd (run p e1 r1)) <> None -> no_uid r2 = true ->
     snd (run (fst (run p e1 r1)) e2 r2) = snd (run p e2 r2).
-  Proof.
-    intros H _ Hn Hv. apply noninterference; auto using run_coherent.
-    destruct Hv as [Hv|Hv]; [left; exact Hv|right].
-    pose proof (run_effects p e1 r1) as (_ & _ & Ha). cbn zeta in Ha. rewrite Ha.
-    unfold write_app_ver. rewrite Hv. destruct (r_stage r1); reflexivity.
-  Qed.
+  Proof. intros H _ Hn. apply noninterference; auto using run_coherent. Qed.
 
   (* ---------------------------------------------------------------- ids start at 1 *)
 
@@ -405,7 +375,8 @@ Section P.
     - injection H as _ <- <-. left. auto.
     - destruct (gen_find g (rs_gens s)) as [[c i]|]; injection H as _ <- <-; left; auto.
     - destruct (lru_call _ _ _ _) as [c [v|]]; [|discriminate]. injection H as _ <- <-. left; auto.
-    - destruct (lru_call _ _ _ _) as [c [v|]]; [|discriminate]. injection H as _ <- <-. left; auto.
+    - dt_branches k; try (injection H as _ <- <-; left; auto).
+      destruct (lru_call _ _ _ _) as [c [v|]]; [|discriminate]. injection H as _ <- <-. left; auto.
     - destruct (p_rowhist p); [|discriminate]. destruct (existsb _ _); [|discriminate].
       injection H as _ <- <-. left; auto.
     - injection H as _ <- <-. left; auto.
@@ -458,7 +429,8 @@ Section P.
     - injection H as <- <- <-. auto.
     - exfalso. apply (No g). reflexivity.
     - destruct (lru_call _ _ _ _) as [c [v|]]; [|discriminate]. injection H as <- <- <-. auto.
-    - destruct (lru_call _ _ _ _) as [c [v|]]; [|discriminate]. injection H as <- <- <-. auto.
+    - dt_branches k; try (injection H as <- <- <-; auto).
+      destruct (lru_call _ _ _ _) as [c [v|]]; [|discriminate]. injection H as <- <- <-. auto.
     - destruct (p_rowhist p); [|discriminate]. destruct (existsb _ _); [|discriminate].
       injection H as <- <- <-. auto.
     - injection H as <- <- <-. auto.
@@ -612,14 +584,11 @@ Section P.
   Proof.
     cbn zeta. unfold Isolation.run. destruct (r_stage r).
     - cbn. splits; [lia|constructor|tauto].
-    - cbn [fst snd o_obs]. splits; [|constructor|cbn; tauto].
-      unfold write_app_ver. destruct (e_shared e); [destruct (r_version r)|]; cbn; lia.
-    - pose proof (exec_uids e (effective_version p e r) (r_ops r)
-                            (set_rowhist (write_app_ver p e r) (Some [])) rs0 (gens_inv_rs0 _)) as H.
+    - cbn. splits; [lia|constructor|tauto].
+    - pose proof (exec_uids e (effective_version e r) (r_ops r)
+                            (set_rowhist p (Some [])) rs0 (gens_inv_rs0 _)) as H.
       cbn zeta in H. destruct (exec_ops _ _ _ _ _) as [p' out]. cbn [fst snd] in *.
-      assert (Eu : p_uid (set_rowhist (write_app_ver p e r) (Some [])) = p_uid p).
-      { unfold write_app_ver. destruct (e_shared e); [destruct (r_version r)|]; reflexivity. }
-      rewrite Eu in H. destruct H as (M & N & B). splits; auto.
+      cbn [set_rowhist p_uid] in H. destruct H as (M & N & B). splits; auto.
       intros c i Hin. destruct (B c i Hin) as [Hlt [Hge|(g & i0 & Hf & _)]]; [lia|].
       cbn in Hf. discriminate.
   Qed.
